@@ -110,6 +110,9 @@ func runC02(r *core.Run) {
 				// succeeds (first time) / fails (second time)
 				s.DirectedAmbiguousPolls(6, i == 0)
 			}
+			if i == nops/4 {
+				s.DirectedBadOutputs() // every bad output construction through swap and mint, then the corrected request
+			}
 			s.RandomOp(cfg)
 		}
 		for k, v := range s.Stats {
